@@ -28,6 +28,8 @@ func runC17(c *Ctx) {
 	r17_3(c, "R17.3", lit)
 	r17_4(c, "R17.4", lit)
 	r17_5(c, "R17.5", w)
+	c.R.Rule("R17.6", "the stat of every non-directory carries its on-disk size: the payload length of a tar entry is Stat.Size (shared with R01.1/R09.3)")
+	statSizeAlways(c, "R17.6")
 }
 
 func hdrStores(lit *ssa.Function, field string) []*ssa.Store {
@@ -60,7 +62,7 @@ func r17_1(c *Ctx, rule string, lit *ssa.Function) {
 			continue
 		}
 		for _, s := range ss {
-			ok := c.DerivesFrom(s.Val, func(v ssa.Value) bool { return isFieldLoad(v, e.stat) }, 3) && eng.Dominates(s, wh)
+			ok := c.DerivesFrom(s.Val, func(v ssa.Value) bool { return isFieldLoad(v, e.stat) }, 3) && c.alwaysBefore(lit, s, wh)
 			c.R.Check(ok, rule, con, c.pos(s), "set from "+e.stat+" before WriteHeader", "hdr."+e.hdr+" is not set from "+e.stat+" before the header is written")
 		}
 	}
@@ -76,7 +78,7 @@ func r17_1(c *Ctx, rule string, lit *ssa.Function) {
 			_, isP := eng.Strip(call.Call.Args[0]).(*ssa.Parameter)
 			return isP
 		}, 4)
-		c.R.Check(okSlash && eng.Dominates(s, wh), rule, c.name(lit)+"/hdr.Name", c.pos(s), "Name = ToSlash(walk path), before WriteHeader", "the member name is not the slash form of the walked path")
+		c.R.Check(okSlash && c.alwaysBefore(lit, s, wh), rule, c.name(lit)+"/hdr.Name", c.pos(s), "Name = ToSlash(walk path), before WriteHeader", "the member name is not the slash form of the walked path")
 		// trailing slash for directories
 		x := c.explorer(lit)
 		as := map[string]bool{}
@@ -161,13 +163,17 @@ func r17_2(c *Ctx, rule string, lit *ssa.Function) {
 	}
 	c.ObUnreachable(rule, base+"/TypeSymlink-only-symlinks", lit, notSym, is(symStore), "Typeflag = TypeSymlink", "the entry is not a symlink")
 	c.ObUnreachable(rule, base+"/TypeLink-not-symlinks", lit, isSym, is(linkStore), "Typeflag = TypeLink", "the entry is a symlink")
-	c.ObUnreachable(rule, base+"/type-only-for-links", lit, nolink, func(in ssa.Instruction) bool { return in == ssa.Instruction(symStore) || in == ssa.Instruction(linkStore) }, "overriding the type", "the entry has no link name")
+	c.ObUnreachable(rule, base+"/type-only-for-links", lit, nolink, func(in ssa.Instruction) bool {
+		return in == ssa.Instruction(symStore) || in == ssa.Instruction(linkStore)
+	}, "overriding the type", "the entry has no link name")
 	var wh ssa.CallInstruction
 	for _, call := range c.P.CallsTo(lit, "(*archive/tar.Writer).WriteHeader") {
 		wh = call
 	}
 	isWH := func(in ssa.Instruction) bool { return in == ssa.Instruction(wh) }
-	c.ObPrecedes(rule, base+"/link-gets-type", lit, link, func(in ssa.Instruction) bool { return in == ssa.Instruction(symStore) || in == ssa.Instruction(linkStore) }, isWH, "assigning the link type", "WriteHeader for a member with a link name")
+	c.ObPrecedes(rule, base+"/link-gets-type", lit, link, func(in ssa.Instruction) bool {
+		return in == ssa.Instruction(symStore) || in == ssa.Instruction(linkStore)
+	}, isWH, "assigning the link type", "WriteHeader for a member with a link name")
 	// size
 	var zero *ssa.Store
 	for _, s := range hdrStores(lit, "Size") {
@@ -314,7 +320,7 @@ func r17_5(c *Ctx, rule string, w *ssa.Function) {
 	closes := map[string]bool{}
 	for _, call := range c.P.CallsTo(w, "(*archive/tar.Writer).Close") {
 		if cl, ok := call.(*ssa.Call); ok {
-			closes[cl.Name()] = true
+			closes[c.reg(cl)] = true
 		}
 	}
 	c.R.Floor(rule, "tar writer Close calls", len(closes), 1)
@@ -324,7 +330,7 @@ func r17_5(c *Ctx, rule string, w *ssa.Function) {
 		if !x.IsSuccessReturn(in, st) {
 			return false
 		}
-		if closes[x.KeyOf(in.(*ssa.Return).Results[0], st)] {
+		if closes[x.SourceKey(in.(*ssa.Return).Results[0], st)] {
 			good++
 			return false
 		}
